@@ -24,6 +24,7 @@ type partition struct {
 	atoms map[string]int // D, canonical sign
 	t     int64
 	pos   token.Pos
+	upper bool // the condition value (after stripping NOTs: see cmpOf's truth) is true on the upper part
 }
 
 func partitionOf(cond ssa.Value) (partition, bool) {
@@ -37,11 +38,14 @@ func partitionOf(cond ssa.Value) (partition, bool) {
 	}
 	d := lx.add(ly, -1)
 	var t int64
+	upper := false
 	switch cm.op {
 	case token.LSS, token.GEQ: // D+k < 0  <=> D <= -k-1
 		t = -d.k - 1
+		upper = cm.op == token.GEQ
 	case token.LEQ, token.GTR: // D+k <= 0 <=> D <= -k
 		t = -d.k
+		upper = cm.op == token.GTR
 	default:
 		return partition{}, false
 	}
@@ -70,8 +74,9 @@ func partitionOf(cond ssa.Value) (partition, bool) {
 			atoms[a] = -atoms[a]
 		}
 		t = -t - 1
+		upper = !upper
 	}
-	return partition{atoms: atoms, t: t}, true
+	return partition{atoms: atoms, t: t, upper: upper}, true
 }
 
 func (p partition) String() string {
